@@ -1,5 +1,4 @@
 import P2sh.Model.Proto
-import P2sh.Model.ProtoFix
 import P2sh.Spec.Rfc
 import P2sh.Driver.Wire
 /-!
@@ -60,7 +59,6 @@ def encOut : Out → String
   | .ok v => "ok " ++ encVal v
   | .bytes bs => "ok " ++ hexOfBytes bs
   | .rterr => "rterr"
-  | .panic => "PANIC"
 
 /-! ## spec side -/
 open P2sh.Spec
@@ -127,28 +125,13 @@ def stepHint (p : Pkt) : Proto.Step → String
     let k := match hd with | .pkt => 0 | .dollar n => n.toNat
     locate (k + path.length - 1) 0 p.root ++ "|" ++ joinWith ">" (chainHint 0 p.root)
 
-def runHints (stepf : Pkt → Proto.Step → Pkt × Out) (p : Pkt) : List Proto.Step → List String
+def runHints (p : Pkt) : List Proto.Step → List String
   | [] => []
   | s :: ss =>
     let pre := p
-    let (p1, _) := stepf p s
+    let (p1, _) := p.step s
     -- W/R describe the state they serialise; G/S the state after the access (caches filled)
-    (match s with | .write | .reparse => stepHint pre s | _ => stepHint p1 s) :: runHints stepf p1 ss
-
-/-- `fx=tcp,ipv4opt,…`: the proposed repairs present in the tree under test (none for the unchanged tree) -/
-def parseFixes (tok : String) : Option ProtoFix.Fixes :=
-  if !tok.startsWith "fx=" then none
-  else
-    (((tok.drop 3).toString.splitOn ",").filter (· ≠ "")).foldlM (fun (fx : ProtoFix.Fixes) name =>
-      match name with
-      | "tcp" => some { fx with tcp := true }
-      | "ipv4opt" => some { fx with ipv4opt := true }
-      | "errser" => some { fx with errser := true }
-      | "typecheck" => some { fx with typecheck := true }
-      | "vlan6" => some { fx with vlan6 := true }
-      | "v6text" => some { fx with v6text := true }
-      | "flow20" => some { fx with flow20 := true }
-      | _ => none) {}
+    (match s with | .write | .reparse => stepHint pre s | _ => stepHint p1 s) :: runHints p1 ss
 
 /-- the layers the type fields of the captured frame select (spec side): `packet@0>eth@0>ipv4@14>err:tcp@34` -/
 def dispatchChain (st : Spec.Rfc.SState) : String :=
@@ -167,29 +150,19 @@ def dispatchChain (st : Spec.Rfc.SState) : String :=
       | .free => ("free" :: acc).reverse
   joinWith ">" (go 14 Spec.Rfc.startCur [])
 
-def runPktWith (fx : ProtoFix.Fixes) (ftok script : String) : String :=
-  match parseFrame ftok, ((script.splitOn ";").filter (· ≠ "")).mapM parseStep with
-  | some (h, raw), some steps =>
-    let p0 := Pkt.new h raw
-    let outsAsIs := joinWith ";" ((p0.run steps).2.map encOut)
-    let outsFix := joinWith ";" ((ProtoFix.run fx p0 steps).2.map encOut)
-    -- the unchanged tree is judged against the model the theorems are about; the flagged model must coincide with it there
-    let model := if fx.any then outsFix else if outsFix = outsAsIs then outsAsIs else "MODEL-MISMATCH " ++ outsAsIs
-    let hints := if fx.any then runHints (ProtoFix.step fx) p0 steps else runHints Pkt.step p0 steps
-    let st : Rfc.SState := { rh := Rfc.recordHeader h.sec h.usec h.caplen h.wirelen, fr := raw }
-    let specs := Rfc.runAlts st (steps.map specStep)
-    result model
-      ("psteps " ++ joinWith " || " (specs.map fun es => joinWith ";" (es.map encExpect))
-        ++ " @@ " ++ joinWith ";" (hints ++ [dispatchChain st]))
-  | _, _ => "bad-op"
-
 def runPkt (args : List String) : String :=
   match args with
-  | [ftok, script] => runPktWith {} ftok script
-  | [ftok, script, fxtok] =>
-    match parseFixes fxtok with
-    | some fx => runPktWith fx ftok script
-    | none => "bad-op"
+  | [ftok, script] =>
+    match parseFrame ftok, ((script.splitOn ";").filter (· ≠ "")).mapM parseStep with
+    | some (h, raw), some steps =>
+      let p0 := Pkt.new h raw
+      let (_, outs) := p0.run steps
+      let st : Rfc.SState := { rh := Rfc.recordHeader h.sec h.usec h.caplen h.wirelen, fr := raw }
+      let specs := Rfc.runAlts st (steps.map specStep)
+      result (joinWith ";" (outs.map encOut))
+        ("psteps " ++ joinWith " || " (specs.map fun es => joinWith ";" (es.map encExpect))
+          ++ " @@ " ++ joinWith ";" (runHints p0 steps ++ [dispatchChain st]))
+    | _, _ => "bad-op"
   | _ => "bad-op"
 
 def utf8Text (hx : String) : Option (List Char) := do
@@ -199,7 +172,9 @@ def utf8Text (hx : String) : Option (List Char) := do
 
 def showBytes (bs : List Nat) : String := hexOfBytes bs
 
-def runAddrWith (fx : ProtoFix.Fixes) (kind hx : String) : String :=
+def runAddr (args : List String) : String :=
+  match args with
+  | [kind, hx] =>
     match utf8Text hx with
     | none => "bad-op"
     | some t =>
@@ -219,18 +194,8 @@ def runAddrWith (fx : ProtoFix.Fixes) (kind hx : String) : String :=
       match kind with
       | "mac" => result (modelOf (parseMac t) id showMac parseMac) (specOf (Rfc.parseMac t) id)
       | "v4" => result (modelOf (parseV4 t) id showV4 parseV4) (specOf (Rfc.parseV4 t) id)
-      | "v6" =>
-        let pv6 := if fx.v6text then ProtoFix.parseV6F else parseV6
-        result (modelOf (pv6 t) v6Bytes showV6 pv6) (specOf (Rfc.parseV6 t) (fun gs => gs.flatMap (Rfc.toBE 2)))
+      | "v6" => result (modelOf (parseV6 t) v6Bytes showV6 parseV6) (specOf (Rfc.parseV6 t) (fun gs => gs.flatMap (Rfc.toBE 2)))
       | _ => "bad-op"
-
-def runAddr (args : List String) : String :=
-  match args with
-  | [kind, hx] => runAddrWith {} kind hx
-  | [kind, hx, fxtok] =>
-    match parseFixes fxtok with
-    | some fx => runAddrWith fx kind hx
-    | none => "bad-op"
   | _ => "bad-op"
 
 end P2sh.Driver.PktDrv
